@@ -335,12 +335,23 @@ def history_case(draw):
     base_get = draw(st.lists(st.sampled_from(HIST_ATTRS), min_size=2, max_size=3, unique=True))
     ops = []
     next_r, next_p = 1, 1
-    focus = draw(st.sampled_from(['insert', 'insert', 'entity', 'mixed']))
+    focus = draw(st.sampled_from(['insert', 'insert', 'entity', 'mixed', 'optimistic', 'optimistic']))
+
+    def reads():
+        # attributes read before an update / delete: they become the optimistic check of the statement (NULL-valued ones
+        # as IS NULL without a placeholder, the others as placeholders after them)
+        if focus == 'optimistic' or draw(st.integers(0, 2)) == 0:
+            return draw(st.lists(st.sampled_from(HIST_ATTRS), min_size=2, max_size=4, unique=True))
+        return draw(st.lists(st.sampled_from(HIST_ATTRS), max_size=2, unique=True))
+
     for _ in range(draw(st.integers(2, 9))):
         if focus == 'insert':
             kind = draw(st.sampled_from(['insert'] * 5 + ['new', 'get']))
         elif focus == 'entity':
             kind = draw(st.sampled_from(['new', 'new', 'set', 'set', 'set', 'get', 'get', 'exists', 'delete']))
+        elif focus == 'optimistic':
+            # objects whose nullable attributes are mostly left NULL, then read-then-write sessions on them
+            kind = 'new' if not ops else draw(st.sampled_from(['new', 'set', 'set', 'set', 'set', 'delete']))
         else:
             kind = draw(st.sampled_from(['insert', 'insert', 'new', 'new', 'set', 'set', 'get', 'exists', 'delete']))
         if kind == 'insert':
@@ -351,17 +362,18 @@ def history_case(draw):
             ops.append(['insert', draw(st.sampled_from([None, None, None, 'id'])), pairs])
         elif kind == 'new':
             cols = list(attrs_in_some_order(base_p, min_size=0))
+            if focus == 'optimistic':
+                cols = [c for c in cols if c in ('name', 'note') or draw(st.integers(0, 3)) == 0]     # tag / n mostly NULL
             cols.insert(draw(st.integers(0, len(cols))), 'id')
             pairs = [[c, enc(next_p if c == 'id' else value(c, c in ('tag', 'n')))] for c in cols]
             next_p += 1
             ops.append(['new', pairs])
         elif kind == 'set':
             cols = attrs_in_some_order(base_set)
-            reads = draw(st.lists(st.sampled_from(HIST_ATTRS), max_size=2, unique=True))
             pairs = [[c, enc(value(c, c in ('tag', 'n')))] for c in cols]
-            ops.append(['set', draw(st.integers(0, 5)), reads, pairs, draw(st.sampled_from(['set', 'set', 'assign']))])
+            ops.append(['set', draw(st.integers(0, 5)), reads(), pairs, draw(st.sampled_from(['set', 'set', 'assign']))])
         elif kind == 'delete':
-            ops.append(['delete', draw(st.integers(0, 5)), draw(st.lists(st.sampled_from(HIST_ATTRS), max_size=2, unique=True))])
+            ops.append(['delete', draw(st.integers(0, 5)), reads()])
         else:
             cols = attrs_in_some_order(base_get)
             pairs = []
